@@ -20,6 +20,8 @@ CONSTANTS AxisLayouts,   \* set of <<bins per axis>> (sequences of bin sequences
           Ops, MaxDepth,
           ProjAxes,      \* set of sequences of axes (1-based) for projection
           MergeArgs,     \* set of <<amount, axis>> (axis 0 = all)
+          ScaleArgs,     \* set of <<p, q>> factors
+          MinFreqs,      \* thresholds for merge_bins(min_frequency=...)
           RetCands,      \* candidate return values of fill / find_bin (index tuples and NoneRet)
           IndexArgs      \* set of index tuples: per axis <<"i", k>> or <<"s", start, stop>>
 
@@ -45,7 +47,7 @@ TotalF(f) == SumOver(DOMAIN f, LAMBDA c : f[c])
 EmptyND(LL, ri, keep) ==
     [bins |-> LL, rincl |-> ri, keep |-> keep,
      freq |-> ZeroF([a \in 1..Len(LL) |-> Len(LL[a])]), err2 |-> ZeroF([a \in 1..Len(LL) |-> Len(LL[a])]),
-     missed |-> 0, names |-> [a \in 1..Len(LL) |-> a]]
+     missed |-> 0, names |-> [a \in 1..Len(LL) |-> a], den |-> 1]   \* contents are freq/den, errors err2/den^2, missed/den
 
 HasNaN(row) == \E a \in 1..Len(row) : row[a] = NaN
 CellOf(x, row) == [a \in 1..Dim(x) |-> BinOfR(x.bins[a], row[a], x.rincl[a])]
@@ -85,7 +87,7 @@ Marginal(x, axset) ==
          freq |-> [c \in Cells(nsh) |-> SumOver({f \in DOMAIN x.freq : match(c, f)}, LAMBDA f : x.freq[f])],
          err2 |-> [c \in Cells(nsh) |-> SumOver({f \in DOMAIN x.err2 : match(c, f)}, LAMBDA f : x.err2[f])],
          missed |-> 0,
-         names |-> [i \in 1..Len(ks) |-> x.names[ks[i]]]]
+         names |-> [i \in 1..Len(ks) |-> x.names[ks[i]]], den |-> x.den]
 
 Transposed(x) ==
     [x EXCEPT !.bins = <<x.bins[2], x.bins[1]>>, !.rincl = <<x.rincl[2], x.rincl[1]>>,
@@ -143,7 +145,24 @@ Indexed(x, ix) ==
          freq |-> [c \in Cells(nsh) |-> x.freq[full(c)]],
          err2 |-> [c \in Cells(nsh) |-> x.err2[full(c)]],
          missed |-> 0,
-         names |-> [i \in 1..Len(ks) |-> x.names[ks[i]]]]
+         names |-> [i \in 1..Len(ks) |-> x.names[ks[i]]], den |-> x.den]
+
+(* h * (p/q): contents and missed scale by p/q, squared errors by (p/q)^2 *)
+ScaledND(x, p, q) ==
+    [x EXCEPT !.freq = [c \in DOMAIN x.freq |-> x.freq[c] * p], !.err2 = [c \in DOMAIN x.err2 |-> x.err2[c] * p * p],
+              !.missed = @ * p, !.den = @ * q]
+
+(* merge_bins(min_frequency) on one axis: SOME coarsening of that axis into runs of adjacent bins *)
+CompositionsND(n) == {q \in UNION {[1..m -> 1..n] : m \in 1..n} : SumSeq(q) = n}
+RunStartND(q, j) == 1 + SumSeq(SubSeq(q, 1, j - 1))
+RunOfQ(q, i) == CHOOSE j \in 1..Len(q) : RunStartND(q, j) <= i /\ i < RunStartND(q, j) + q[j]
+CoarsenedAxis(x, ax, q) ==
+    LET nb == [j \in 1..Len(q) |-> <<Left(x.bins[ax][RunStartND(q, j)]), Right(x.bins[ax][RunStartND(q, j) + q[j] - 1])>>]
+        nsh == [a \in 1..Dim(x) |-> IF a = ax THEN Len(q) ELSE Len(x.bins[a])]
+        src(c) == {f \in DOMAIN x.freq : RunOfQ(q, f[ax]) = c[ax] /\ \A a \in 1..Dim(x) : a # ax => f[a] = c[a]}
+    IN  [x EXCEPT !.bins[ax] = nb,
+                  !.freq = [c \in Cells(nsh) |-> SumOver(src(c), LAMBDA f : x.freq[f])],
+                  !.err2 = [c \in Cells(nsh) |-> SumOver(src(c), LAMBDA f : x.err2[f])]]
 
 ---------------------------------------------------------------------------
 Init == h = Null /\ d = Null /\ ghost = {} /\ calls = 0
@@ -248,6 +267,47 @@ GetItem(ix) ==
     /\ \E a \in 1..Dim(h) : ~IsIntIx(ix, a)            \* at least one axis survives
     /\ d' = Indexed(h, ix) /\ UNCHANGED <<h, ghost>>
 
+(* HistogramND(binnings, frequencies, errors2, missed=m, keep_missed=keep): arrays plus a missed counter *)
+FromArraysM(LL, ri, m, keep) ==
+    /\ Live /\ On("FromArraysM") /\ h = Null /\ Len(ri) = Len(LL)
+    /\ h' = [EmptyND(LL, ri, keep) EXCEPT
+                !.freq = [c \in Cells([a \in 1..Len(LL) |-> Len(LL[a])]) |-> CodeOf(c, 4)],
+                !.err2 = [c \in Cells([a \in 1..Len(LL) |-> Len(LL[a])]) |-> 2 * CodeOf(c, 4) + 1],
+                !.missed = m]
+    /\ ghost' = {<<"arrays">>} /\ UNCHANGED d
+
+(* d = h * c, c * h, h / c  /  h *= c, h /= c   (c = p/q > 0) *)
+ScaleND(p, q, how, inplace) ==
+    /\ Live /\ On("ScaleND") /\ h # Null /\ p > 0 /\ q > 0 /\ h.den * q <= 64 /\ TotalF(h.err2) * p * p <= 1000000
+    /\ how \in {"mul", "rmul", "div"}
+    /\ IF inplace THEN how # "rmul" /\ h' = ScaledND(h, p, q) /\ UNCHANGED d
+       ELSE d = Null /\ d' = ScaledND(h, p, q) /\ UNCHANGED h
+    /\ UNCHANGED ghost
+
+(* d = h.normalize(percent) / h.normalize(inplace=True): total 1 (or 100), proportions and missed scaled alike *)
+NormalizeND(percent, inplace) ==
+    /\ Live /\ On("NormalizeND") /\ h # Null /\ TotalF(h.freq) > 0 /\ h.den = 1
+    /\ LET x == [h EXCEPT !.den = TotalF(h.freq)]
+           y == IF percent THEN ScaledND(x, 100, 1) ELSE x
+       IN  IF inplace THEN h' = y /\ UNCHANGED d ELSE d = Null /\ d' = y /\ UNCHANGED h
+    /\ UNCHANGED ghost
+
+(* h.partial_normalize(axis) (2D): every column (axis 1) or row (axis 2) sums to 1; `table` is the expected content *)
+(* of every cell as <<freq, divisor>> (divisor 1 for an all-zero line), `etable` the squared errors over divisor^2  *)
+LineSum(x, ax, c) == SumOver({f \in DOMAIN x.freq : f[3 - ax] = c[3 - ax]}, LAMBDA f : x.freq[f])
+PartialNorm(ax, inplace, table) ==
+    /\ Live /\ On("PartialNorm") /\ h # Null /\ Dim(h) = 2 /\ ax \in 1..2 /\ h.den = 1
+    /\ table = [c \in DOMAIN h.freq |-> <<h.freq[c], IF LineSum(h, ax, c) = 0 THEN 1 ELSE LineSum(h, ax, c)>>]
+    /\ UNCHANGED <<h, d, ghost>>
+
+(* d = h.merge_bins(min_frequency=t, axis=ax): the code must produce ONE of the coarsenings of that axis *)
+MergeMinFreq(t, ax, inplace) ==
+    /\ Live /\ On("MergeMinFreq") /\ h # Null /\ ax \in 1..Dim(h) /\ Consecutive(h.bins[ax])
+    /\ \E q \in CompositionsND(Len(h.bins[ax])) :
+          IF inplace THEN h' = CoarsenedAxis(h, ax, q) /\ UNCHANGED d
+          ELSE d = Null /\ d' = CoarsenedAxis(h, ax, q) /\ UNCHANGED h
+    /\ UNCHANGED ghost
+
 (* del d *)
 DropD == /\ Live /\ On("DropD") /\ d # Null /\ d' = Null /\ UNCHANGED <<h, ghost>>
 
@@ -266,6 +326,14 @@ Next ==
     \/ \E m \in MergeArgs, ip \in BOOLEAN : Merge(m[1], m[2], ip) \/ MergeRefused(m[1], m[2], ip)
     \/ \E ix \in IndexArgs : GetItem(ix)
     \/ DropD
+    \/ \E LL \in AxisLayouts, ri \in RInclChoices, m \in {0, 3}, keep \in BOOLEAN : FromArraysM(LL, ri, m, keep)
+    \/ \E c \in ScaleArgs, how \in {"mul", "rmul", "div"}, ip \in BOOLEAN : ScaleND(c[1], c[2], how, ip)
+    \/ \E pc, ip \in BOOLEAN : NormalizeND(pc, ip)
+    \/ \E LL \in AxisLayouts, ax \in 1..2, ip \in BOOLEAN :
+          \E tb \in {[c \in Cells([a \in 1..Len(LL) |-> Len(LL[a])]) |->
+                        <<CodeOf(c, 4), SumOver({f \in Cells([a \in 1..Len(LL) |-> Len(LL[a])]) : Len(LL) = 2 /\ f[3 - ax] = c[3 - ax]}, LAMBDA f : CodeOf(f, 4))>>]} :
+              PartialNorm(ax, ip, tb)
+    \/ \E t \in MinFreqs, ax \in 1..3, ip \in BOOLEAN : MergeMinFreq(t, ax, ip)
 
 Spec == Init /\ [][Next]_vars
 
@@ -325,6 +393,14 @@ MergeLaws ==
             /\ TotalF(MergedAxis(h, m[1], m[2]).err2) = TotalF(h.err2)
             /\ FirstEdge(MergedAxis(h, m[1], m[2]).bins[m[2]]) = FirstEdge(h.bins[m[2]])
             /\ LastEdge(MergedAxis(h, m[1], m[2]).bins[m[2]]) = LastEdge(h.bins[m[2]])
+
+(* C06: scaling is linear also for the missed counter; normalisation gives total 1 with unchanged proportions. *)
+ScaleLaws ==
+    h # Null => \A c \in ScaleArgs :
+        LET x == ScaledND(h, c[1], c[2]) IN
+        /\ \A cell \in DOMAIN h.freq : x.freq[cell] * h.den * c[2] = h.freq[cell] * c[1] * x.den
+        /\ x.missed * h.den * c[2] = h.missed * c[1] * x.den
+        /\ TotalF(x.freq) * h.den * c[2] = TotalF(h.freq) * c[1] * x.den
 
 (* C12/C09: deriving never changes the source (action property). *)
 SourceUntouched ==
